@@ -203,6 +203,10 @@ type defCase struct {
 	// letter Perm[i] (Perm[Perm[i]] == i); nil: plain alphabet.
 	Perm   []int `json:"perm,omitempty"`
 	Probe  []int `json:"probe"` // letter slice for AllValid
+	// LongN > 0: a second AllValid slice of LongN letters (1000..2100): the definition's letters
+	// cycled, with the letters of LongBad (position, letter value) written over them
+	LongN   int      `json:"long_n,omitempty"`
+	LongBad [][2]int `json:"long_bad,omitempty"`
 	Mol    int8  `json:"mol"`
 	WithCo bool  `json:"complementor"`
 }
@@ -258,6 +262,12 @@ func genDef(t *rapid.T) defCase {
 			c.Probe = append(c.Probe, int(l))
 		} else {
 			c.Probe = append(c.Probe, rapid.IntRange(0, 255).Draw(t, "probe-any"))
+		}
+	}
+	if rapid.IntRange(0, 9).Draw(t, "long-probe") == 4 {
+		c.LongN = rapid.SampledFrom([]int{1000, 1023, 1024, 1025, 2048, 2100}).Draw(t, "long-n")
+		for i, k := 0, rapid.IntRange(0, 3).Draw(t, "long-nbad"); i < k; i++ {
+			c.LongBad = append(c.LongBad, [2]int{rapid.IntRange(0, c.LongN-1).Draw(t, "long-bad-pos"), rapid.IntRange(0, 255).Draw(t, "long-bad-letter")})
 		}
 	}
 	return c
@@ -357,6 +367,37 @@ func checkDef(c defCase) *vlib.Failure {
 	if ok != (wantPos < 0) || pos != wantPos {
 		return vlib.Failf("allvalid", "AllValidQLetter(%v) = %v, %d; first invalid position is %d", c.Probe, ok, pos, wantPos)
 	}
+	if c.LongN > 0 {
+		inDef := func(p byte) bool {
+			for j := 0; j < len(c.Letters); j++ {
+				if c.Letters[j] == p || (!c.Cased && lower(c.Letters[j]) == lower(p)) {
+					return true
+				}
+			}
+			return false
+		}
+		long := make([]alphabet.Letter, c.LongN)
+		longQ := make([]alphabet.QLetter, c.LongN)
+		for i := range long {
+			long[i] = alphabet.Letter(c.Letters[i%len(c.Letters)])
+		}
+		for _, b := range c.LongBad {
+			long[b[0]] = alphabet.Letter(b[1])
+		}
+		want := -1
+		for i, l := range long {
+			longQ[i] = alphabet.QLetter{L: l, Q: 30}
+			if want < 0 && !inDef(byte(l)) {
+				want = i
+			}
+		}
+		if ok, pos := a.AllValid(long); ok != (want < 0) || pos != want {
+			return vlib.Failf("allvalid", "AllValid on %d letters with %v written in = %v, %d; first invalid position is %d (definition %q cased=%v)", c.LongN, c.LongBad, ok, pos, want, c.Letters, c.Cased)
+		}
+		if ok, pos := a.AllValidQLetter(longQ); ok != (want < 0) || pos != want {
+			return vlib.Failf("allvalid", "AllValidQLetter on %d letters with %v written in = %v, %d; first invalid position is %d", c.LongN, c.LongBad, ok, pos, want)
+		}
+	}
 	return nil
 }
 
@@ -406,13 +447,19 @@ func genBad(t *rapid.T) badDef {
 	n := rapid.IntRange(2, 12).Draw(t, "n")
 	perm := rapid.Permutation([]byte("abcdefghijklmnopqrstuvwxyz")).Draw(t, "letters")
 	return badDef{Kind: rapid.SampledFrom(badKinds).Draw(t, "kind"), Letters: string(perm[:n]), Pos: rapid.IntRange(0, n).Draw(t, "pos"),
-		Rune: rapid.SampledFrom([]int{0x80, 0xe9, 0x3b1, 0x4e16, 0x1f600, 0xff}).Draw(t, "rune"), InC: rapid.Bool().Draw(t, "in-c"), Cased: rapid.Bool().Draw(t, "cased")}
+		// 0x212a KELVIN SIGN and 0x130 lower-case to ASCII letters, 0x17f and 0x131 upper-case to them;
+		// negative values stand for the bare byte -v (not valid UTF-8 on its own)
+		Rune: rapid.SampledFrom([]int{0x80, 0xe9, 0x3b1, 0x4e16, 0x1f600, 0xff, 0x212a, 0x130, 0x17f, 0x131, -0x80, -0xe9, -0xff, -0xc3}).Draw(t, "rune"), InC: rapid.Bool().Draw(t, "in-c"), Cased: rapid.Bool().Draw(t, "cased")}
 }
 
 func checkBad(c badDef) *vlib.Failure {
 	n := len(c.Letters)
 	pos := c.Pos % (n + 1)
-	ins := func(s string) string { return s[:pos] + string(rune(c.Rune)) + s[pos:] }
+	bad := string(rune(c.Rune))
+	if c.Rune < 0 {
+		bad = string([]byte{byte(-c.Rune)})
+	}
+	ins := func(s string) string { return s[:pos] + bad + s[pos:] }
 	switch c.Kind {
 	case "non-ascii-alphabet":
 		def := ins(c.Letters)
@@ -425,7 +472,7 @@ func checkBad(c badDef) *vlib.Failure {
 		}
 	case "non-ascii-pairing":
 		s, co := c.Letters, c.Letters
-		r := string(rune(c.Rune))
+		r := bad
 		if pos >= n {
 			pos = n - 1
 		}
@@ -439,6 +486,15 @@ func checkBad(c badDef) *vlib.Failure {
 		}
 		if _, err := alphabet.NewPairing(s, co); err == nil {
 			return vlib.Failf("accepts-non-ascii", "NewPairing(%q, %q) accepted a non-ASCII definition", s, co)
+		}
+		// the same non-ASCII letter on both sides (paired with itself), and paired with an ASCII letter both ways
+		both := c.Letters[:pos] + r + c.Letters[pos:]
+		if _, err := alphabet.NewPairing(both, both); err == nil {
+			return vlib.Failf("accepts-non-ascii", "NewPairing(%q, %q) accepted a non-ASCII definition", both, both)
+		}
+		x, y := c.Letters[:1]+r, r+c.Letters[:1]
+		if _, err := alphabet.NewPairing(x, y); err == nil {
+			return vlib.Failf("accepts-non-ascii", "NewPairing(%q, %q) accepted a non-ASCII definition", x, y)
 		}
 	case "length-mismatch":
 		if _, err := alphabet.NewPairing(c.Letters, c.Letters[:n-1]); err == nil {
